@@ -141,6 +141,19 @@ func zzSelfIfaceEref(bs []bitmapContainer) container {
 //@   ensures res == nil                            -- false when len(bs) > 0 (an interface holding an interior pointer)
 //@   modifies nothing
 
+func zzSelfLoopFrame() []uint16 {
+	s := make([]uint16, 4)
+	for i := 0; i < 4; i++ {
+		s[i] = uint16(i)
+	}
+	return s
+}
+
+//@ contract zzSelfLoopFrame
+//@   ensures len(res) == 4 && res[3] == 0          -- false: res[3] == 3 (the loop writes a buffer allocated before it)
+//@   modifies nothing
+//@   loop 0 invariant 0 <= i && i <= 4 && len(s) == 4
+
 func zzMask(x uint32) uint32 { return x & 0xffff0000 }
 
 //@ contract zzMask
@@ -153,7 +166,7 @@ func zzSelfWrap(a uint16, b uint16) int { return int(a + b) }
 //@   ensures res == a + b                      -- false: uint16 addition wraps
 //@   modifies nothing
 '''
-ENGINE_KEYS = ['roaring.zzSelfFrame', 'roaring.zzSelfFresh', 'roaring.zzSelfByte', 'roaring.zzSelfWrap', 'roaring.zzSelfMkBad', 'roaring.zzSelfElemFrame', 'roaring.zzSelfIfaceEref']
+ENGINE_KEYS = ['roaring.zzSelfFrame', 'roaring.zzSelfFresh', 'roaring.zzSelfByte', 'roaring.zzSelfWrap', 'roaring.zzSelfMkBad', 'roaring.zzSelfElemFrame', 'roaring.zzSelfIfaceEref', 'roaring.zzSelfLoopFrame']
 ENGINE_OK = ['roaring.zzP.bump', 'roaring.zzB.bumpAll', 'roaring.zzMk', 'roaring.zzMask']
 
 FIX_COMMITS = [
